@@ -46,7 +46,9 @@ Record tdef := mkT {
   t_scalar : Z;          (* second member of the Tuple default *)
   t_doid : Z;            (* oid of the class-level default object (0: none / scalar) *)
   t_nnotif : Z;          (* length of the trait's notifier list *)
-  t_static : bool        (* the first notifier is the class's static _name_changed handler *)
+  t_static : bool;       (* the first notifier is the class's static _name_changed handler *)
+  t_cmp : Z;             (* comparison_mode: 0 none, 1 identity, 2 equality *)
+  t_label : Z            (* metadata: code of the `label` attribute of the definition (0: unset) *)
 }.
 
 (* a handler call: (handler id, trait name, old contents, new contents); handler 0 = static *)
@@ -78,6 +80,8 @@ Inductive op :=
 | Mutate (i n x : Z)                               (* getattr(obj_i, n), then append / set / add x in place *)
 | Register (i n hid : Z) (via_observe : bool)      (* obj_i.on_trait_change(h, n) / obj_i.observe(h, n) *)
 | AddTrait (i n : Z) (t : tdef)                    (* obj_i.add_trait(n, Int(c)) / List(Int, [..]) *)
+| SetMeta (i n code : Z)                           (* obj_i.trait(n).label = code, n a trait added to this instance *)
+| AssignFrom (i n src : Z)                         (* setattr(obj_i, n, the value object stored in obj_src.__dict__[n]) *)
 | Introspect (i mode : Z)                          (* obj_i.copyable_trait_names() / traits(k=v) / trait_names(k=v) / traits() *)
 | NewInst (c : Z).                                 (* a new instance of class c *)
 
@@ -139,7 +143,7 @@ Definition vcontent (v : value) : list Z := concat (map snd (v_parts v)).
 
 (* a new value of the trait's shape built from an assignment payload *)
 Definition assigned_value (t : tdef) (content : list Z) (scalar : Z) (next : Z) : value * Z :=
-  default_value (mkT (t_kind t) content scalar 0 0 false) next.
+  default_value (mkT (t_kind t) content scalar 0 0 false 2 0) next.
 
 (* in-place mutation of the first mutable part *)
 Definition mutate_value (v : value) (x : Z) : value :=
@@ -156,6 +160,8 @@ Definition mutate_value (v : value) (x : Z) : value :=
 Definition error_value : value := mkV 9 [].
 (* shapes that compare equal in Python when their contents do *)
 Definition shape_class (s : Z) : Z := if s =? 5 then 1 else if s =? 6 then 2 else s.
+
+Definition new_inst (c : Z) : inst := mkI c [] [] [] [] [].
 
 Section Step.
   Variable w : world.
@@ -206,7 +212,7 @@ Section Step.
       match alookup (items_name n) its with
       | Some _ => its
       | None =>
-          let its1 := its ++ [(items_name n, mkT KEvent [] 0 0 0 false)] in
+          let its1 := its ++ [(items_name n, mkT KEvent [] 0 0 0 false 2 0)] in
           match alookup trait_added its1, alookup trait_added (class_of ins) with
           | None, Some ta => its1 ++ [(trait_added, ta)]
           | _, _ => its1
@@ -222,23 +228,12 @@ Section Step.
     if fires_items v && has_any ins then
       match alookup (items_name n) its with
       | Some _ => its
-      | None => its ++ [(items_name n, mkT KEvent [] 0 0 0 false)]
+      | None => its ++ [(items_name n, mkT KEvent [] 0 0 0 false 2 0)]
       end
     else its.
 
-  (* one operation on instance [ins]: new instance view, returned value, next oid *)
-  Definition step_inst (ins : inst) (o : op) : inst * value * Z :=
-    match o with
-    | Read _ n =>
-        match alookup n (i_dict ins) with
-        | Some v => (ins, v, w_next w)                       (* the performance hack: value in __dict__ *)
-        | None =>
-            match resolve ins n with
-            | Some t => materialise ins n t
-            | None => (ins, error_value, w_next w)           (* AttributeError *)
-            end
-        end
-    | Assign _ n content scalar =>
+  (* setattr_trait (l.2373-2549) *)
+  Definition assign_inst (ins : inst) (n : Z) (content : list Z) (scalar : Z) : inst * value * Z :=
         match resolve ins n with
         | None => (ins, error_value, w_next w)
         | Some t =>
@@ -262,14 +257,56 @@ Section Step.
                 (* C: changed = (old_value != value) — pointer comparison: a scalar equal to the old one is
                    the same object, a new container never is; the wrappers then filter by equality and
                    _change_accepted calls object._trait(name, 2), which clones the trait *)
-                let called := negb ((v_shape v =? 0) && same) in
+                (* comparison_mode none: every assignment is a change; identity: pointer comparison only *)
+                let called := if t_cmp t =? 0 then true else negb ((v_shape v =? 0) && same) in
+                let filtered := if t_cmp t =? 2 then same else false in
                 (mkI (i_cls ins) (aset n v (i_dict ins))
                      (if called then ensure_itrait ins n t else i_itraits ins)
                      calls'
-                     (i_log ins ++ (if called then notify hs n (Some oldc) same (vcontent v) else []))
+                     (i_log ins ++ (if called then notify hs n (Some oldc) filtered (vcontent v) else []))
                      (i_regs ins),
                  mkV 0 [], next')
             end
+        end.
+
+  (* the payload that rebuilds a value of the same contents *)
+  Definition payload_of (v : value) : list Z * Z :=
+    match v_shape v, v_parts v with
+    | 4, _ :: (_, c) :: (_, [sc]) :: _ => (c, sc)
+    | _, (_, c) :: _ => (c, 0)
+    | _, _ => ([], 0)
+    end.
+
+  (* one operation on instance [ins]: new instance view, returned value, next oid *)
+  Definition step_inst (ins : inst) (o : op) : inst * value * Z :=
+    match o with
+    | Read _ n =>
+        match alookup n (i_dict ins) with
+        | Some v => (ins, v, w_next w)                       (* the performance hack: value in __dict__ *)
+        | None =>
+            match resolve ins n with
+            | Some t => materialise ins n t
+            | None => (ins, error_value, w_next w)           (* AttributeError *)
+            end
+        end
+    | Assign _ n content scalar => assign_inst ins n content scalar
+    | AssignFrom _ n src =>
+        (* the trait validates the foreign container into a new Trait{List,Dict,Set}Object of this instance *)
+        match alookup n (i_dict (nth (Z.to_nat src) (w_insts w) (new_inst 0))) with
+        | Some v => if (0 <=? src) && (src <? Z.of_nat (length (w_insts w)))
+                    then let '(content, scalar) := payload_of v in assign_inst ins n content scalar
+                    else (ins, error_value, w_next w)
+        | None => (ins, error_value, w_next w)
+        end
+    | SetMeta _ n code =>
+        (* a trait added with add_trait owns its metadata dict (_clone_trait copies it): only this instance sees it *)
+        match alookup n (i_itraits ins), alookup n (class_of ins) with
+        | Some t, None =>
+            (mkI (i_cls ins) (i_dict ins)
+                 (aset n (mkT (t_kind t) (t_content t) (t_scalar t) (t_doid t) (t_nnotif t) (t_static t) (t_cmp t) code)
+                       (i_itraits ins))
+                 (i_calls ins) (i_log ins) (i_regs ins), mkV 0 [], w_next w)
+        | _, _ => (ins, error_value, w_next w)
         end
     | Mutate _ n x =>
         match alookup n (i_dict ins) with
@@ -296,7 +333,7 @@ Section Step.
         | Some t =>
             (* _trait(n, 2)._notifiers(True).append(wrapper) *)
             let bumpn (t0 : tdef) := mkT (t_kind t0) (t_content t0) (t_scalar t0) (t_doid t0) (t_nnotif t0 + 1)
-                                         (t_static t0) in
+                                         (t_static t0) (t_cmp t0) (t_label t0) in
             let its := aset n (bumpn t) (ensure_itrait ins n t) in
             let its' :=
               if via_observe then
@@ -332,14 +369,22 @@ Section Step.
                                    end
                          end in
             let nn0 := match alookup (items_name n) (i_itraits ins) with Some it => t_nnotif it | None => 0 end in
-            let its := aset (items_name n) (mkT KEvent [] 0 0 nn0 false) (i_itraits ins) in
+            let its := aset (items_name n) (mkT KEvent [] 0 0 nn0 false 2 0) (i_itraits ins) in
             if known then its else fire its
           else i_itraits ins in
         let old := match alookup n its0 with Some t0 => Some t0 | None => alookup n (class_of ins) end in
         let '(doid, next') := if container then (w_next w, w_next w + 1) else (0, w_next w) in
-        let nn := match old with Some ot => t_nnotif ot | None => 0 end in
-        let st := match old with Some ot => t_static ot | None => false end in
-        let its1 := aset n (mkT (t_kind t) (t_content t) (t_scalar t) doid nn st) its0 in
+        (* a new name gets the static handlers the class defines for it (_<name>_changed): the template row *)
+        let tmpl := alookup (n + 3000) (class_of ins) in
+        let nn := match old with
+                  | Some ot => t_nnotif ot
+                  | None => match tmpl with Some tm => t_nnotif tm | None => 0 end
+                  end in
+        let st := match old with
+                  | Some ot => t_static ot
+                  | None => match tmpl with Some tm => t_static tm | None => false end
+                  end in
+        let its1 := aset n (mkT (t_kind t) (t_content t) (t_scalar t) doid nn st (t_cmp t) (t_label t)) its0 in
         (mkI (i_cls ins) (i_dict ins)
              (match old with Some _ => its1 | None => fire its1 end)
              (i_calls ins) (i_log ins) (i_regs ins),
@@ -350,25 +395,94 @@ Section Step.
 
   Definition target (o : op) : Z :=
     match o with
-    | Read i _ | Assign i _ _ _ | Mutate i _ _ | Register i _ _ _ | AddTrait i _ _ | Introspect i _ => i
+    | Read i _ | Assign i _ _ _ | Mutate i _ _ | Register i _ _ _ | AddTrait i _ _ | Introspect i _
+    | SetMeta i _ _ | AssignFrom i _ _ => i
     | NewInst _ => Z.of_nat (length (w_insts w))
     end.
-
-  Definition new_inst (c : Z) : inst := mkI c [] [] [] [] [].
-
-  (* The step on the world: only the target instance's slot is rewritten; the class tables never are. *)
-  Definition step (o : op) : world * value :=
-    match o with
-    | NewInst c => (mkW (w_classes w) (w_insts w ++ [new_inst c]) (w_next w), mkV 0 [])
-    | _ =>
-        let i := target o in
-        if (i <? 0) || (Z.of_nat (length (w_insts w)) <=? i) then (w, error_value)
-        else
-          let ins := nth (Z.to_nat i) (w_insts w) (new_inst 0) in
-          let '(ins', r, next') := step_inst ins o in
-          (mkW (w_classes w) (update_nth (Z.to_nat i) (fun _ => ins') (w_insts w)) next', r)
-    end.
 End Step.
+
+(* ---- wildcard (prefix) traits: `_ = Int(d)` in the class body ----
+   A name no definition exists for is resolved through the class's prefix trait on first use
+   (ctraits.c get_prefix_trait l.622-646 -> HasTraits.__prefix_trait__, has_traits.py l.3125-3180): the class trait
+   for that name is created on demand — the prefix trait itself, or a clone carrying the static handlers defined
+   for that name — and stored in the CLASS traits dict (the one sanctioned write to it); then the trait_added event
+   fires on the instance that used the name.  In the class table the prefix trait is the row [wild_name], the
+   definition a name with static handlers gets is the row [template_name n].  Only names 60..69 are taken to be
+   wildcard names (any other undefined name is an AttributeError in the model). *)
+Definition wild_name : Z := -3.
+Definition template_name (n : Z) : Z := n + 3000.
+Definition wild_range (n : Z) : bool := (60 <=? n) && (n <? 70).
+
+(* the attribute name an operation resolves (getattr, setattr, _trait(name, 2)); observe() needs a defined trait *)
+Definition op_name (o : op) : option Z :=
+  match o with
+  | Read _ n | Assign _ n _ _ | Mutate _ n _ => Some n
+  | Register _ n _ via => if via then None else if n =? any_name then None else Some n
+  | _ => None
+  end.
+
+Definition prefix_resolve (c : list (Z * tdef)) (n : Z) : option tdef :=
+  match alookup (template_name n) c with
+  | Some t => Some t
+  | None => alookup wild_name c
+  end.
+
+(* class tables list the declared names in ascending order, then the special rows (templates, prefix trait, trait_added) *)
+Fixpoint insert_row (n : Z) (t : tdef) (c : list (Z * tdef)) : list (Z * tdef) :=
+  match c with
+  | [] => [(n, t)]
+  | (k, t') :: r => if (k <? 0) || (n <? k) then (n, t) :: c else (k, t') :: insert_row n t r
+  end.
+
+Definition fire_trait_added (w : world) (ins : inst) : inst :=
+  mkI (i_cls ins) (i_dict ins)
+      (match alookup trait_added (i_itraits ins), alookup trait_added (class_of w ins) with
+       | None, Some ta => i_itraits ins ++ [(trait_added, ta)]
+       | _, _ => i_itraits ins
+       end)
+      (i_calls ins) (i_log ins) (i_regs ins).
+
+(* class tables and target instance after the on-demand resolution the operation causes (if any) *)
+Definition prefix_use (w : world) (ins : inst) (o : op) : list (list (Z * tdef)) * inst :=
+  match op_name o with
+  | Some n =>
+      if wild_range n then
+        match alookup n (i_itraits ins), alookup n (class_of w ins), prefix_resolve (class_of w ins) n with
+        | None, None, Some t =>
+            (update_nth (Z.to_nat (i_cls ins)) (insert_row n t) (w_classes w), fire_trait_added w ins)
+        | _, _, _ => (w_classes w, ins)
+        end
+      else (w_classes w, ins)
+  | None => (w_classes w, ins)
+  end.
+
+(* the world after the on-demand resolution an operation causes: the class of the target instance may gain the
+   row of the wildcard name, the target instance sees trait_added fire; nothing else changes *)
+Definition resolved (w : world) (o : op) : world :=
+  match o with
+  | NewInst _ => w
+  | _ =>
+      let i := target w o in
+      if (i <? 0) || (Z.of_nat (length (w_insts w)) <=? i) then w
+      else
+        let '(cls', ins0) := prefix_use w (nth (Z.to_nat i) (w_insts w) (new_inst 0)) o in
+        mkW cls' (update_nth (Z.to_nat i) (fun _ => ins0) (w_insts w)) (w_next w)
+  end.
+
+(* the operation proper, every name being resolvable or an error: only the target's slot is rewritten *)
+Definition step0 (w : world) (o : op) : world * value :=
+  match o with
+  | NewInst c => (mkW (w_classes w) (w_insts w ++ [new_inst c]) (w_next w), mkV 0 [])
+  | _ =>
+      let i := target w o in
+      if (i <? 0) || (Z.of_nat (length (w_insts w)) <=? i) then (w, error_value)
+      else
+        let ins := nth (Z.to_nat i) (w_insts w) (new_inst 0) in
+        let '(ins', r, next') := step_inst w ins o in
+        (mkW (w_classes w) (update_nth (Z.to_nat i) (fun _ => ins') (w_insts w)) next', r)
+  end.
+
+Definition step (w : world) (o : op) : world * value := step0 (resolved w o) o.
 
 Fixpoint run (w : world) (ops : list op) : list (op * value * world) :=
   match ops with
